@@ -7,6 +7,7 @@ package storage
 // state, call existing internal functions, or install the verif hooks.
 
 import (
+	"time"
 	"bytes"
 	"encoding/binary"
 	"io"
@@ -170,6 +171,16 @@ func VerifTakeIO() []VerifIO {
 	r := verifIOLog
 	verifIOLog = nil
 	return r
+}
+
+// VerifStallStoreOpen makes every store that is opened from now on pause for d right after it was set up (hook H2 sits at
+// the end of newFileStore): the scheduler may suspend a process anywhere. VerifStallStoreOpen(0) ends it.
+func VerifStallStoreOpen(d time.Duration) {
+	if d == 0 {
+		verifHookStoreOpened = nil
+		return
+	}
+	verifHookStoreOpened = func(f *fileStore) { time.Sleep(d) }
 }
 
 // ---- store registry (hook H2): which stores are open, so that a "tick" can be
